@@ -99,6 +99,9 @@ def make_doc(r, tier, names=None, strings=None, falsy_bias=0.25, wide_p=0.04):
 def examine_find(case, registry=None, env=None):
     """Differential: lib.find(text, doc) vs reference nodelist (locations + identity)."""
     q, ast, doc = case["q"], case["ast"], case["doc"]
+    if case.get("alias"):
+        # the same content with shared (aliased) sub-containers: a DAG, as programmatically built data often is
+        doc = V.alias(doc, case["alias"])
     if case.get("exotic"):
         # the same data built from dict/list subclasses (OrderedDict, plain dict and list subclasses)
         doc = V.exotic(doc, case["exotic"])
